@@ -12,8 +12,8 @@ namespace C17
 
 /-- the part of the RP's configuration the property speaks about -/
 structure Cfg where
-  hashKey : Nat := 0          -- identity of the cookie handler's hash key
-  blockKey : Nat := 0         -- … and of its encryption key
+  hashKey : CookieKey := []   -- the hash key the cookie handler was CONFIGURED with (byte string; same key = same bytes)
+  blockKey : CookieKey := []  -- … and its encryption key (`[]` = none)
   clientID : String := ""
   redirectURI : String := ""
   scopes : List String := []
